@@ -1,1 +1,2 @@
 //! Reference models (written from POSIX / docs, not from the implementation).
+pub mod vars;
